@@ -49,10 +49,14 @@ func init() {
 			// the remote pack: two operations of the other replica
 			var remotePack *model.PushPullPack
 			if a.Remote {
-				if a.Type == "counter" {
+				switch a.Type {
+				case "counter":
 					other.cnt.IncreaseBy(100)
 					other.cnt.IncreaseBy(1000)
-				} else {
+				case "doc":
+					other.doc.PutToObject("o1", "o1")
+					other.doc.PutToObject("o2", "o2")
+				default:
 					other.li.InsertMany(0, "o1", "o2")
 				}
 				ops := other.dt.CreatePushPullPack().Operations
@@ -85,11 +89,16 @@ func init() {
 			var acts []activity
 			call := func(name string, delta int32, tag string) func() {
 				return func() {
-					if a.Type == "counter" {
+					switch a.Type {
+					case "counter":
 						if _, err := r.cnt.IncreaseBy(delta); err == nil {
 							note(name, int(delta))
 						}
-					} else {
+					case "doc":
+						if _, err := r.doc.PutToObject(tag, tag); err == nil {
+							note(name, 1)
+						}
+					default:
 						if _, err := r.li.Insert(0, tag); err == nil {
 							note(name, 1)
 						}
@@ -113,6 +122,30 @@ func init() {
 					})
 					if err == nil {
 						note("t1", 20)
+					}
+				} else if a.Type == "doc" {
+					err := r.doc.Transaction("tx", func(d orda.DocumentInTx) error {
+						keys := func() string {
+							m, _ := d.GetValue().(map[string]interface{})
+							ks := make([]string, 0, len(m))
+							for k := range m {
+								ks = append(ks, k)
+							}
+							sort.Strings(ks)
+							return strings.Join(ks, ",")
+						}
+						before := keys()
+						d.PutToObject("t1a", "t1a")
+						mid := keys()
+						d.PutToObject("t1b", "t1b")
+						after := keys()
+						mu.Lock()
+						txReads = append(txReads, fmt.Sprintf("%s|%s|%s", before, mid, after))
+						mu.Unlock()
+						return nil
+					})
+					if err == nil {
+						note("t1", 2)
 					}
 				} else {
 					err := r.li.Transaction("tx", func(l orda.ListInTx) error {
@@ -208,6 +241,19 @@ func init() {
 					if a.Type == "list" {
 						ok = rd == `2,["t1a","t1b"]`
 					}
+					if a.Type == "doc" {
+						// whatever the body found at its start, it then sees exactly its own two puts on top of it
+						p := strings.Split(rd, "|")
+						add := func(base string, ks ...string) string {
+							all := append([]string{}, ks...)
+							if base != "" {
+								all = append(all, strings.Split(base, ",")...)
+							}
+							sort.Strings(all)
+							return strings.Join(all, ",")
+						}
+						ok = len(p) == 3 && p[1] == add(p[0], "t1a") && p[2] == add(p[0], "t1a", "t1b")
+					}
 					if !ok {
 						return viol("C20:transaction-saw-foreign-effect", "reads inside the transaction body: %s; schedule %v", rd, x.trace)
 					}
@@ -224,6 +270,36 @@ func init() {
 					}
 					if got := r.cnt.Get(); got != want {
 						return viol("C20:lost-update", "counter reads %d, successful calls and remote operations sum to %d (%v); schedule %v", got, want, okCalls, x.trace)
+					}
+				} else if a.Type == "doc" {
+					m, _ := r.doc.GetValue().(map[string]interface{})
+					var vals []string
+					for k := range m {
+						vals = append(vals, k)
+					}
+					sort.Strings(vals)
+					var want []string
+					for name, n := range okCalls {
+						switch name {
+						case "t0":
+							want = append(want, "t0a")
+						case "t1":
+							want = append(want, "t1a", "t1b")
+						case "t2":
+							if n >= 1 {
+								want = append(want, "t2a")
+							}
+							if n >= 2 {
+								want = append(want, "t2b")
+							}
+						}
+					}
+					if a.Remote {
+						want = append(want, "o1", "o2")
+					}
+					sort.Strings(want)
+					if strings.Join(vals, ",") != strings.Join(want, ",") {
+						return viol("C20:lost-update", "document holds the keys %v, the successful calls and remote operations put %v; schedule %v", vals, want, x.trace)
 					}
 				} else {
 					var vals []string
